@@ -467,3 +467,48 @@ Lemma shutdown_not_interrupting_witness :
               (ctx_with_shutdown (shutdown_mode_of e) 0 (fun _ _ => false))
               {| enabled := true; max_elapsed := 0 |} [ORetry 0; ORetry 0; OSuccess false]) = 3%nat.
 Proof. intros e [<-|[<-|[<-|[<-|[]]]]]; vm_compute; reflexivity. Qed.
+
+(** * Attempt durations count against the limit *)
+Section AttemptDurations.
+  Variables elapsed1 elapsed2 backoff dur : nat -> Z.
+  Variable ctx_fires : nat -> Z -> bool.
+  Variable cfg : config.
+  Hypothesis Hmax : max_elapsed cfg <> 0.
+
+  Notation loop := (loop elapsed1 elapsed2 backoff ctx_fires cfg).
+  Notation give_up := (give_up elapsed1 elapsed2 backoff ctx_fires (max_elapsed cfg)).
+
+  Lemma loop_spent_within_limit outs : forall k acc,
+    acc + dur k <= elapsed1 k ->
+    (forall j, elapsed1 (k + j) <= elapsed2 (k + j) /\
+               elapsed2 (k + j) + Z.max (throttle_of (nth j outs OFinal)) (backoff (k + j)) + dur (S (k + j)) <= elapsed1 (S (k + j))) ->
+    forall i, (i < length (waits (loop k outs)))%nat ->
+      acc + spent dur k (waits (loop k outs)) i + throttle_of (nth i outs OFinal) <= max_elapsed cfg.
+  Proof.
+    induction outs as [|o rest IH]; intros k acc Hacc Hclk i Hi.
+    - cbn in Hi. lia.
+    - destruct o as [p|thr|]; try (cbn in Hi; lia).
+      rewrite loop_retry in *. destruct (give_up k thr) eqn:G; [cbn in Hi; lia|].
+      apply (give_up_none elapsed1 elapsed2 backoff ctx_fires cfg Hmax) in G as [G1 G2].
+      pose proof (Hclk 0%nat) as [C1 C2]. rewrite Nat.add_0_r in C1, C2. cbn [nth throttle_of] in C2.
+      destruct i as [|i].
+      + cbn [waits spent nth throttle_of]. lia.
+      + cbn [waits spent nth] in *.
+        assert (Hi' : (i < length (waits (loop (S k) rest)))%nat) by (cbn in Hi; lia).
+        specialize (IH (S k) (acc + dur k + Z.max thr (backoff k)) ltac:(lia)).
+        assert (Hclk' : forall j, elapsed1 (S k + j) <= elapsed2 (S k + j) /\
+                  elapsed2 (S k + j) + Z.max (throttle_of (nth j rest OFinal)) (backoff (S k + j)) + dur (S (S k + j)) <= elapsed1 (S (S k + j))).
+        { intros j. specialize (Hclk (S j)). cbn [nth] in Hclk.
+          replace (k + S j)%nat with (S k + j)%nat in Hclk by lia. exact Hclk. }
+        specialize (IH Hclk' i Hi'). lia.
+  Qed.
+
+  Lemma run_spent_within_limit outs :
+    enabled cfg = true -> Clock_counts_attempts elapsed1 elapsed2 backoff dur outs ->
+    Spent_within_limit dur (max_elapsed cfg) outs (retry_run elapsed1 elapsed2 backoff ctx_fires cfg outs).
+  Proof.
+    intros E [H0 Hc] i Hi. rewrite (run_enabled _ _ _ _ _ _ E) in *.
+    pose proof (loop_spent_within_limit outs 0%nat 0 ltac:(lia)) as H. cbn [Nat.add] in H.
+    specialize (H Hc i Hi). lia.
+  Qed.
+End AttemptDurations.
